@@ -97,6 +97,7 @@ type worker struct {
 	ev, nt   int64
 	dst      []byte
 	esc, dec []byte
+	alias    []byte
 	want     []byte
 	vals     []uint32
 	in       []byte
